@@ -643,6 +643,49 @@ def g_nfah_hist(rng):
     return "nfah " + " ".join(steps)
 
 
+
+# ---------------------------------------------------------------- bounding product growth in histories
+_CREATING = {"def", "defo", "new", "copy", "copynt", "copynf", "move", "union", "uniondisj", "isect", "isectbu", "rev", "unreach",
+             "useless", "cand", "reduce", "reindex", "totd"}
+
+
+def cap_products(case, sep, cap):
+    """Repeated intersections of results grow as n^(2^k) (a 5-state NFA intersected with itself three times has 390 625 product
+    states: minutes of honest work, reported as TIMEOUT by the watchdog).  Tracks the product nesting level of every entry through
+    the history and turns an intersection that would exceed `cap` into a trimming step of its first operand (the number of
+    entries created stays the same, so later indices keep their meaning)."""
+    toks = case.split(" ")
+    head, steps = toks[0], toks[1:]
+    pre = []
+    if head == "bddh":
+        pre, steps = steps[:1], steps[1:]
+    level = []
+    out = []
+    for st in steps:
+        f = st.split(sep)
+        op = f[0]
+
+        def lv(k):
+            try:
+                return level[int(f[k])]
+            except (ValueError, IndexError):
+                return 0
+        if op in ("isect", "isectbu"):
+            l = max(lv(1), lv(2)) + 1
+            if l > cap:
+                st = sep.join(["useless", f[1]])
+                l = lv(1)
+            level.append(l)
+        elif op in ("union", "uniondisj"):
+            level.append(max(lv(1), lv(2)))
+        elif op in ("assign", "moveassign"):
+            if len(f) > 2 and f[1].isdigit() and int(f[1]) < len(level):
+                level[int(f[1])] = lv(2)
+        elif op in _CREATING:
+            level.append(lv(1) if op not in ("def", "defo", "new") else 0)
+        out.append(st)
+    return " ".join([head] + pre + out)
+
 # ---------------------------------------------------------------- labelled transition systems
 def g_lts(rng):
     big = rng.random() < 0.12
@@ -904,7 +947,9 @@ def g_bddh(rng):
     n = 0
     nfam = 0
 
-    def new(family=None, bl=()):
+    lvl = {}             # entry -> product nesting level (repeated intersections of results grow as n^(2^k))
+
+    def new(family=None, bl=(), level=0):
         nonlocal n, nfam
         if family is None:
             family = nfam
@@ -912,6 +957,7 @@ def g_bddh(rng):
             fblocks[family] = set()
         fam[n] = family
         fblocks[family] |= set(bl)
+        lvl[n] = level
         live.append(n)
         n += 1
 
@@ -928,10 +974,12 @@ def g_bddh(rng):
         c = rng.random()
         i = rng.choice(live)
         j = rng.choice(live)
+        if 0.68 <= c < 0.82 and max(lvl[i], lvl[j]) >= 1:
+            c = 0.95                                         # no intersection of an intersection: trim instead
         if c < 0.12:
-            steps.append(f"copy!{i}"); new(fam[i])
+            steps.append(f"copy!{i}"); new(fam[i], level=lvl[i])
         elif c < 0.18:
-            steps.append(f"assign!{i}!{j}"); fam[i] = fam[j]
+            steps.append(f"assign!{i}!{j}"); fam[i] = fam[j]; lvl[i] = lvl[j]
         elif c < 0.24 and len(live) > 2:
             steps.append(f"kill!{i}"); live.remove(i)
         elif c < 0.34 and "f" not in fblocks[fam[i]]:
@@ -944,22 +992,22 @@ def g_bddh(rng):
             if fam[i] == fam[j]:
                 # shared-table branch (a view of the same table) – or, when a member of the family is a trimming result with
                 # a table of its own, a fresh table with small numbers: cover both
-                new(fam[i], {"f"})
+                new(fam[i], {"f"}, level=max(lvl[i], lvl[j]))
             else:
-                new(None, {"f"})
+                new(None, {"f"}, level=max(lvl[i], lvl[j]))
         elif c < 0.68:
             cands = [(a, b) for a in live for b in live if fam[a] != fam[b] and not (fblocks[fam[a]] & fblocks[fam[b]])]
             if cands:
                 a, b = rng.choice(cands)
                 steps.append(f"uniondisj!{a}!{b}")
                 # the result starts as a copy of the left operand and writes the right operand's states into that table
-                new(fam[a], fblocks[fam[b]])
+                new(fam[a], fblocks[fam[b]], level=max(lvl[a], lvl[b]))
         elif c < 0.82:
-            steps.append(f"isect!{i}!{j}"); new(None, {"f"})
+            steps.append(f"isect!{i}!{j}"); new(None, {"f"}, level=max(lvl[i], lvl[j]) + 1)
         elif c < 0.91:
-            steps.append(f"unreach!{i}"); new(fam[i])
+            steps.append(f"unreach!{i}"); new(fam[i], level=lvl[i])
         else:
-            steps.append(f"useless!{i}"); new(fam[i])
+            steps.append(f"useless!{i}"); new(fam[i], level=lvl[i])
         if rng.random() < 0.3:
             steps.append(f"rt!{rng.choice(live)}")            # dump / reload round trip of an operand or a result (C13)
     return f"bddh {enc} " + " ".join(steps)
@@ -1266,6 +1314,14 @@ GENERATORS = {
     "isect": g_isect, "isectbu": g_isectbu, "trim": g_trim, "cand": g_cand, "reduce": g_reduce, "simdown": g_simdown, "simup": g_simup,
     "compl": g_compl, "rename": g_rename,
 }
+
+
+def _capped(g, sep, cap):
+    return lambda rng: cap_products(g(rng), sep, cap)
+
+
+for _k, _sep, _cap in [("nfah_ops", ":", 2), ("nfah_hist", ":", 2), ("tah_hist", "!", 1)]:
+    GENERATORS[_k] = _capped(GENERATORS[_k], _sep, _cap)
 
 
 def generate(kind_weights, n, seed):
